@@ -237,6 +237,6 @@ def eval_model_check(theory, sig, stages, module_path, name, maxels=2, maxid=3, 
                           invariants=invariants or ("RefinesApiCex SoundAtObsCex RootsOnly TypeSetsExact Disjoint" if cex
                                                     else "RefinesApi SoundAtObs RootsOnly TypeSetsExact Disjoint"), properties=props)
     write_mc(d, mod, "EqlogEval", cons, cfg.splitlines())
-    r = vlib.tlc(mod, name=name + "-tlc", workers=workers, specdir=d, timeout=timeout, allow_violation=allow_violation)
+    r = vlib.tlc(mod, name=name + "-tlc", workers=workers, specdir=d, timeout=timeout, allow_violation=allow_violation, coverage=True)
     r["plan_rules"] = nplan
     return r
